@@ -187,6 +187,14 @@ func (sp *zzSpec) eval(n *idr.Node, d *Decl, isFinal, underArray bool) (interfac
 			}
 		case "nodename":
 			r = n.Data + args[0]
+		case "failif":
+			if args[0] == "1" {
+				if d.CustomFunc.IgnoreError {
+					return sp.normalize(d, nil) // the failure is dropped: no value
+				}
+				return nil, false, true
+			}
+			r = "ok:" + args[0]
 		}
 		return sp.normalize(d, r)
 	case d.Object != nil:
@@ -352,7 +360,7 @@ func C03CustomFuncCall() {
 		}
 		return nil
 	}
-	fn := []string{"cat", "var", "nodename", "onlyctx"}[zz.NondetChoice("fn", 4)]
+	fn := []string{"cat", "var", "nodename", "onlyctx", "mixed"}[zz.NondetChoice("fn", 5)]
 	nargs := 2
 	if fn == "nodename" {
 		nargs = 1
@@ -362,7 +370,12 @@ func C03CustomFuncCall() {
 	}
 	var args []*Decl
 	for i := 0; i < nargs; i++ {
-		args = append(args, &Decl{Const: zzS("1"), ResultType: castOf(zz.NondetChoice("cast", 5))})
+		if zz.NondetBool("absent") {
+			// an argument whose xpath matches nothing: the value is absent (nil)
+			args = append(args, &Decl{XPath: zzS("nope")})
+		} else {
+			args = append(args, &Decl{Const: zzS("1"), ResultType: castOf(zz.NondetChoice("cast", 5))})
+		}
 	}
 	raw := map[string]*Decl{finalOutput: {Object: map[string]*Decl{
 		"u": {CustomFunc: &CustomFuncDecl{Name: fn, Args: args}},
